@@ -174,6 +174,27 @@ def graph_walk(g, max_zones) -> list[str]:
     for d in g.devices:
         if isinstance(d, Controller) and (d.tcs is None or d.tcs.ctl is not d):
             errs.append(f"controller {d.id} lost its own system: .tcs is {getattr(d.tcs, 'id', None)}'s (it was given a parent)")
+    # the parents' own lists of children are the inverse of the children's `_parent` (the model keeps the latter only)
+    parents = []
+    for tcs in g.systems:
+        parents += [tcs, *tcs.zones] + ([tcs.dhw] if tcs.dhw else [])
+    parents += [d for d in g.devices if hasattr(d, "childs") and hasattr(d, "child_by_id")]
+    seen_parents = set()
+    for p in parents:
+        if id(p) in seen_parents:
+            continue
+        seen_parents.add(id(p))
+        kids = list(getattr(p, "childs", []))
+        # (a device that is both sensor and actuator of a zone is appended twice: the same child, no second parent)
+        for k in kids:
+            if getattr(k, "_parent", None) is not p and hasattr(k, "_parent") and not par_str(p).startswith("U:"):
+                errs.append(f"children: {par_str(p)} lists {k.id} as a child, but {k.id}'s parent is {par_str(k._parent)}")
+        if set(getattr(p, "child_by_id", {})) != {k.id for k in kids}:
+            errs.append(f"children: {par_str(p)}: child_by_id {sorted(p.child_by_id)} != childs {sorted(k.id for k in kids)}")
+    for d in g.devices:
+        p = d._parent
+        if p is not None and hasattr(p, "childs") and d not in p.childs:
+            errs.append(f"children: {d.id} has parent {par_str(p)}, which does not list it among its children")
     for d in g.devices:
         p = d._parent
         if p is not None:
